@@ -102,3 +102,14 @@ Theorem C10_saved_deleted_hash : forall now s d', In d' (c_disks (normalise now 
   deleted_at d' pos = Some h -> exists d, In d (c_disks s) /\ cd_name d = cd_name d' /\ deleted_at d pos = Some h.
 Proof. exact saved_deleted_hash. Qed.
 Print Assumptions C10_saved_deleted_hash.
+
+(* 6. The writer decides which disks are mapped on the state AFTER the clean-up of the unused positions (pdisks): a disk whose only
+      blocks are DELETED ones in stripes that no file uses owns nothing then, gets no 'M' record and no 'h' record. *)
+Theorem C10_mapping_after_cleanup : forall s,
+  p_idx (prepare s) = assign_idx (pdisks s) (alloc_size s) (c_maps s) 0 (map (fun _ => None) (pdisks s)).
+Proof. exact mapping_after_cleanup. Qed.
+Theorem C10_map_kept_after_cleanup : forall s, wf s -> forall m, In m (c_maps s) ->
+  map_kept (pdisks s) (p_idx (prepare s)) m
+  = negb (disk_empty (nth (dix (pdisks s) (cm_name m)) (pdisks s) (empty_disk [])) (alloc_size s)).
+Proof. exact map_kept_after_cleanup. Qed.
+Print Assumptions C10_map_kept_after_cleanup.
